@@ -1036,7 +1036,10 @@ class Crystal(object):
                                             +M[0,2]*(M[1,0]*M[2,1]-M[1,1]*M[2,0]))
 
         groupops = []
-        supercellvect = [np.array(nv) for nv in itertools.product(range(-1,2), repeat=self.dim)
+        # a lattice vector n with n.M.n = M_dd has |n|^2 <= M_dd / (smallest eigenvalue of M): entries -1..1
+        # are enough for a reduced cell, but not for a general (noreduce) description
+        nmax = max(1, int(np.floor(np.sqrt(np.max(np.diag(self.metric)) / np.linalg.eigvalsh(self.metric)[0]) + 1e-8)))
+        supercellvect = [np.array(nv) for nv in itertools.product(range(-nmax, nmax+1), repeat=self.dim)
                          if any(n != 0 for n in nv)]
         matchvect = [[u for u in supercellvect
                       if self.__isclose__(np.dot(u, np.dot(self.metric, u)),
